@@ -23,9 +23,12 @@ BASE = {
     # ... and with a small lobe inside the wall, beyond psinorm_sol
     "lsn_bump": [[1, 1.5, 0.15, W], [1, 1.5, -0.45, W], [0.12, 1.72, 0.25, 0.07]],
     "off_axis": [[1, 1.42, 0.12, W], [0.9, 1.55, -0.47, W]],
+    # the lower lobe lies wholly inside the wall: the separatrix closes round it (legs never reach the wall) and the X-point between the
+    # lower lobe and a third one is hidden from the axis (psi not monotone on the line from the axis)
+    "closed": [[1, 1.5, 0.1, 0.2], [1, 1.5, -0.3, 0.2], [0.8, 1.82, -0.32, 0.13]],
 }
 SOLS = {"lsn": (1.05, 1.2), "usn": (1.05, 1.2), "cdn": (1.05, 1.2), "ldn": (1.03, 1.2), "udn": (1.03, 1.2), "ldn_tilt": (1.03, 1.25), "lsn_far": (1.1, 3.5),
-        "lsn_bump": (1.1, 2.5), "off_axis": (1.05, 1.2)}
+        "lsn_bump": (1.1, 2.5), "off_axis": (1.05, 1.2), "closed": (1.1, 1.3)}
 
 
 def make_cases(tier, seed):
